@@ -62,8 +62,8 @@ def run(ctx):
                 "non-zero / any malformed line; distinct by (flavour, text)")
     rng = ctx.rng
     thorough = ctx.thorough
-    n_random = 12 if thorough else 3
-    per_class = 150 if thorough else 24
+    n_random = 30 if thorough else 6
+    per_class = 600 if thorough else 60
     cases = []
     for fname in H.FLAVOURS:
         for c in H.flavour_classes(fname):
@@ -96,7 +96,7 @@ def run(ctx):
             res.samples.append({"fl": fname, "i": j, "text": s})
 
     # -------------------------------------------------- stream B: whole subroutines, text -> binary -> text
-    n_subs = 1500 if thorough else 150
+    n_subs = 8000 if thorough else 600
     subs = []
     # corpus: the witness of the open finding first
     from netqasm.lang import operand as op
@@ -156,7 +156,7 @@ def run(ctx):
 
     # -------------------------------------------------- stream C: malformed / differently formed source
     all_mn = sorted({c.mnemonic for f in H.FLAVOURS for c in H.flavour_classes(f)})
-    n_mal = 12000 if thorough else 2500
+    n_mal = 120000 if thorough else 10000
     mal = []
     # corpus: no register left for a replaced constant (RuntimeError)
     full = ["add R%d R%d R%d" % (k, k + 1, k + 2) for k in range(0, 14)]
